@@ -28,28 +28,6 @@ func main() {
 	hc.Main(hc.Spec{Prop: "C20", Facts: facts, Run: run})
 }
 
-// intLits lists the integer literals of a function body in source order (a fingerprint of the
-// offsets and bounds the function uses: header sizes, shift amounts, index positions).
-func intLits(f *hc.Facts, lean, dir, fn string) {
-	fd := f.FuncDecl(dir, fn)
-	if fd == nil || fd.Body == nil {
-		f.Missing(lean, dir+"."+fn+" not found")
-		return
-	}
-	var xs []string
-	ast.Inspect(fd.Body, func(n ast.Node) bool {
-		if bl, ok := n.(*ast.BasicLit); ok && bl.Kind == token.INT {
-			v, err := strconv.ParseInt(bl.Value, 0, 64)
-			if err != nil {
-				xs = append(xs, "missing_literal")
-			} else {
-				xs = append(xs, strconv.FormatInt(v, 10))
-			}
-		}
-		return true
-	})
-	f.Raw(fmt.Sprintf("def %s : List Nat := [%s] -- integer literals of %s.%s in source order", lean, strings.Join(xs, ", "), dir, fn))
-}
 
 // arrayLen emits N for `type <typ> [N]byte` in package directory dir.
 func arrayLen(f *hc.Facts, lean, dir, typ string) {
@@ -86,24 +64,204 @@ func arrayLen(f *hc.Facts, lean, dir, typ string) {
 	f.Missing(lean, dir+"."+typ+" is not declared as [N]byte")
 }
 
-// lenGuards lists, for one function, the conditions of its `if` statements that mention `len(`
-// (the bounds checks that make the slice operations after them safe), as canonical source text.
-func lenGuards(f *hc.Facts, lean, dir, fn string) {
-	fd := f.FuncDecl(dir, fn)
+
+// encoderFacts translates the pieces of encodeBytes / encodeString: the short-form condition and,
+// for the short block (the `if` body) and the long block (the rest), the header bytes, the value of
+// currentLen, the number of padding bytes and the order in which header / payload / padding are
+// appended.  Parameters are positional (a0 = the length l, resp. currentLen for the pad).
+func encoderFacts(f *hc.Facts, pre, fn string, fns map[string]string) {
+	fd := f.FuncDecl("bin", fn)
 	if fd == nil || fd.Body == nil {
-		f.Missing(lean, dir+"."+fn+" not found")
+		f.Missing(pre+"_short", "bin."+fn+" not found")
 		return
 	}
-	var xs []string
+	opt := func() hc.C20ExprOpt { return hc.C20ExprOpt{Fns: fns, Locals: map[string]ast.Expr{}} }
+	var ifs *ast.IfStmt
+	var tail []ast.Stmt
+	for i, st := range fd.Body.List {
+		if is, ok := st.(*ast.IfStmt); ok && ifs == nil {
+			ifs = is
+			tail = fd.Body.List[i+1:]
+		}
+	}
+	if ifs == nil {
+		f.Missing(pre+"_short", "no if statement in bin."+fn)
+		return
+	}
+	// l := len(v) before the if: substitute, so that the parameter is the length itself
+	lenVar := ""
+	for _, st := range fd.Body.List {
+		if as, ok := st.(*ast.AssignStmt); ok && len(as.Lhs) == 1 && len(as.Rhs) == 1 {
+			if ce, ok := as.Rhs[0].(*ast.CallExpr); ok && f.Src(ce.Fun) == "len" {
+				lenVar = f.Src(as.Lhs[0])
+			}
+		}
+	}
+	_ = lenVar
+	f.C20TranslateExpr(pre+"_short", "bin", ifs.Cond, opt())
+	block := func(tag string, stmts []ast.Stmt) {
+		var hdr []ast.Expr
+		var cur, pad ast.Expr
+		var order []string
+		for _, st := range stmts {
+			as, ok := st.(*ast.AssignStmt)
+			if !ok || len(as.Rhs) != 1 {
+				continue
+			}
+			if ce, ok := as.Rhs[0].(*ast.CallExpr); ok && f.Src(ce.Fun) == "append" && len(ce.Args) >= 2 {
+				switch {
+				case ce.Ellipsis == token.NoPos:
+					hdr = ce.Args[1:]
+					order = append(order, `"hdr"`)
+				default:
+					if mk, ok := ce.Args[1].(*ast.CallExpr); ok && f.Src(mk.Fun) == "make" && len(mk.Args) == 2 {
+						pad = mk.Args[1]
+						order = append(order, `"pad"`)
+					} else {
+						order = append(order, `"payload"`)
+					}
+				}
+				continue
+			}
+			if as.Tok == token.DEFINE && len(as.Lhs) == 1 {
+				cur = as.Rhs[0]
+			}
+		}
+		f.C20TranslateExprList(pre+"_"+tag+"Hdr", "bin", hdr, opt())
+		f.C20TranslateExpr(pre+"_"+tag+"Cur", "bin", cur, opt())
+		f.C20TranslateExpr(pre+"_"+tag+"Pad", "bin", pad, opt())
+		f.Raw(fmt.Sprintf("def %s_%sOrder : List String := [%s] -- order of the appends in the %s block of bin.%s", pre, tag, strings.Join(order, ", "), tag, fn))
+	}
+	block("short", ifs.Body.List)
+	block("long", tail)
+}
+
+// decoderFacts translates the pieces of decodeBytes / decodeString: the six conditions in source
+// order, the two length computations, and for the two successful returns the consumed length and the
+// bounds of the slice expression.
+func decoderFacts(f *hc.Facts, pre, fn string, fns map[string]string) {
+	fd := f.FuncDecl("bin", fn)
+	if fd == nil || fd.Body == nil {
+		f.Missing(pre+"_c0", "bin."+fn+" not found")
+		return
+	}
+	opt := func() hc.C20ExprOpt { return hc.C20ExprOpt{Fns: fns} }
+	conds := hc.C20IfConds(fd.Body)
+	for i := 0; i < 6; i++ {
+		var c ast.Expr
+		if i < len(conds) {
+			c = conds[i]
+		}
+		f.C20TranslateExpr(fmt.Sprintf("%s_c%d", pre, i), "bin", c, opt())
+	}
+	f.Raw(fmt.Sprintf("def %s_conds : Nat := %d -- number of if statements in bin.%s", pre, len(conds), fn))
+	var lens []ast.Expr
+	var rets []*ast.ReturnStmt
 	ast.Inspect(fd.Body, func(n ast.Node) bool {
-		if is, ok := n.(*ast.IfStmt); ok {
-			if src := f.Src(is.Cond); strings.Contains(src, "len(") {
-				xs = append(xs, strconv.Quote(src))
+		switch x := n.(type) {
+		case *ast.AssignStmt:
+			if x.Tok == token.DEFINE && len(x.Lhs) == 1 && len(x.Rhs) == 1 {
+				lens = append(lens, x.Rhs[0])
+			}
+		case *ast.ReturnStmt:
+			if len(x.Results) == 3 && f.Src(x.Results[2]) == "nil" {
+				rets = append(rets, x)
 			}
 		}
 		return true
 	})
-	f.Raw(fmt.Sprintf("def %s : List String := [%s] -- len-guards of %s.%s in source order", lean, strings.Join(xs, ", "), dir, fn))
+	pick := func(i int) ast.Expr {
+		if i < len(lens) {
+			return lens[i]
+		}
+		return nil
+	}
+	f.C20TranslateExpr(pre+"_longLen", "bin", pick(0), opt())
+	f.C20TranslateExpr(pre+"_shortLen", "bin", pick(1), opt())
+	for i, tag := range []string{"long", "short"} {
+		var n, lo, hi ast.Expr
+		if i < len(rets) {
+			n = rets[i].Results[0]
+			x := rets[i].Results[1]
+			if ce, ok := x.(*ast.CallExpr); ok && len(ce.Args) == 1 { // string(b[lo:hi])
+				x = ce.Args[0]
+			}
+			if se, ok := x.(*ast.SliceExpr); ok {
+				lo, hi = se.Low, se.High
+			}
+		}
+		f.C20TranslateExpr(pre+"_"+tag+"N", "bin", n, opt())
+		f.C20TranslateExpr(pre+"_"+tag+"Lo", "bin", lo, opt())
+		f.C20TranslateExpr(pre+"_"+tag+"Hi", "bin", hi, opt())
+	}
+}
+
+// bufferGuards translates the bounds checks of the Buffer decoders and the amounts by which they
+// advance: PeekID, Uint32, Uint64, String, Bytes, PeekN/ConsumeN, VectorHeader.
+func bufferGuards(f *hc.Facts) {
+	guard := func(lean, fn string, idx int) {
+		fd := f.FuncDecl("bin", fn)
+		var c ast.Expr
+		var locals map[string]ast.Expr
+		if fd != nil {
+			locals = hc.C20LocalConsts(fd.Body)
+			k := 0
+			for _, x := range hc.C20IfConds(fd.Body) {
+				if strings.Contains(f.Src(x), "err") {
+					continue
+				}
+				if k == idx {
+					c = x
+				}
+				k++
+			}
+		}
+		for n, e := range locals { // keep only constants (`const size = Word * 2`), not data-dependent locals
+			if _, ok := e.(*ast.BasicLit); !ok {
+				if _, ok := e.(*ast.BinaryExpr); !ok {
+					delete(locals, n)
+				}
+			}
+		}
+		f.C20TranslateExpr(lean, "bin", c, hc.C20ExprOpt{Locals: locals})
+	}
+	advance := func(lean, fn string) {
+		fd := f.FuncDecl("bin", fn)
+		var lo ast.Expr
+		var locals map[string]ast.Expr
+		if fd != nil {
+			locals = hc.C20LocalConsts(fd.Body)
+			ast.Inspect(fd.Body, func(n ast.Node) bool {
+				if as, ok := n.(*ast.AssignStmt); ok && len(as.Lhs) == 1 && len(as.Rhs) == 1 && f.Src(as.Lhs[0]) == "b.Buf" {
+					if se, ok := as.Rhs[0].(*ast.SliceExpr); ok && se.High == nil && lo == nil {
+						lo = se.Low
+					}
+				}
+				return true
+			})
+		}
+		for n, e := range locals {
+			if _, ok := e.(*ast.BasicLit); !ok {
+				if _, ok := e.(*ast.BinaryExpr); !ok {
+					delete(locals, n)
+				}
+			}
+		}
+		f.C20TranslateExpr(lean, "bin", lo, hc.C20ExprOpt{Locals: locals})
+	}
+	guard("peekIDShort", "Buffer.PeekID", 0)
+	advance("uint32Advance", "Buffer.Uint32")
+	guard("uint64Short", "Buffer.Uint64", 0)
+	advance("uint64Advance", "Buffer.Uint64")
+	guard("stringShort", "Buffer.String", 0)
+	advance("stringAdvance", "Buffer.String")
+	guard("bytesShort", "Buffer.Bytes", 0)
+	advance("bytesAdvance", "Buffer.Bytes")
+	guard("peekNShort", "Buffer.PeekN", 0)
+	advance("consumeNAdvance", "Buffer.ConsumeN")
+	guard("vectorNegative", "Buffer.VectorHeader", 0)
+	guard("consumeIDMismatch", "Buffer.ConsumeID", 0)
+	advance("consumeIDAdvance", "Buffer.ConsumeID")
 }
 
 func facts(f *hc.Facts) {
@@ -121,19 +279,12 @@ func facts(f *hc.Facts) {
 	arrayLen(f, "int128Size", "bin", "Int128")
 	arrayLen(f, "int256Size", "bin", "Int256")
 	f.TranslateFuncs("bin", "nearestPaddedValueLength", "nearestPaddedValueLength")
-	intLits(f, "encodeBytesLits", "bin", "encodeBytes")
-	intLits(f, "encodeStringLits", "bin", "encodeString")
-	intLits(f, "decodeBytesLits", "bin", "decodeBytes")
-	intLits(f, "decodeStringLits", "bin", "decodeString")
-	lenGuards(f, "guardsDecodeBytes", "bin", "decodeBytes")
-	lenGuards(f, "guardsDecodeString", "bin", "decodeString")
-	lenGuards(f, "guardsPeekID", "bin", "Buffer.PeekID")
-	lenGuards(f, "guardsPeekN", "bin", "Buffer.PeekN")
-	lenGuards(f, "guardsUint64", "bin", "Buffer.Uint64")
-	lenGuards(f, "guardsString", "bin", "Buffer.String")
-	lenGuards(f, "guardsBytes", "bin", "Buffer.Bytes")
-	lenGuards(f, "guardsInt128", "bin", "Buffer.Int128")
-	lenGuards(f, "guardsInt256", "bin", "Buffer.Int256")
+	padFns := map[string]string{"nearestPaddedValueLength": "nearestPaddedValueLength"}
+	encoderFacts(f, "encB", "encodeBytes", padFns)
+	encoderFacts(f, "encS", "encodeString", padFns)
+	decoderFacts(f, "decB", "decodeBytes", padFns)
+	decoderFacts(f, "decS", "decodeString", padFns)
+	bufferGuards(f)
 }
 
 // ---- implementation adapters ------------------------------------------------------------
